@@ -147,6 +147,22 @@ def run_sweep(case):
                     probs.append(dict(sig='sweep:' + s_, msg=m[:1500]))
             if nthread > 1 and N:
                 nt.append(('sweep', N, nthread))
+    if case['lo'] == 0:
+        # very many stripes (more than any 16-bit key could number), particles spread over the whole box
+        for npart in (300, 40000, 70001):
+            for dtype in (np.float32, np.float64):
+                N = 97
+                pos = np.empty((N, 3), dtype=dtype)
+                pos[:, 0] = ((np.arange(N) * 37) % N + 0.5) * (box / N)
+                pos[:, 1] = np.arange(N) + 0.5
+                pos[:, 2] = 7.0
+                for nthread in (1, 5):
+                    ps, st, ws = tsc.partition_parallel(pos, npart, box, coord=0, nthread=nthread, sort=False)
+                    n += 1
+                    for s_, m in oracle(pos, None, (ps, st, ws), npart, 0, box, dtype, False, f'many stripes npartition={npart} {dtype.__name__} nthread={nthread}'):
+                        if not any(p['sig'] == 'manystripes:' + s_ for p in probs):
+                            probs.append(dict(sig='manystripes:' + s_, msg=m[:1500]))
+                nt.append(('manystripes', npart, dtype.__name__))
     return dict(problems=probs, evals=n, nt=nt, states=1, transitions=1, traces=0, extra=dict(sweep_runs=n))
 
 
